@@ -18,7 +18,10 @@ grown by delta (radius -/+ delta, both caps moved by delta), delta = K eps (|p -
 + r + h).  This is 64 eps (r + h)-like for rays that cross the surface transversally,
 becomes the sqrt(eps) (r + h) behaviour for tangent rays by itself and is wide
 (= undecided) exactly where the definition is discontinuous (ray lying in a cap plane
-or along the lateral surface).
+or along the lateral surface).  For the near-parallel class (direction within 1e-8 rad
+of the axis) the radius is perturbed by sqrt(eps) (|p - base| + r + h) instead, the
+bound DESIGN C18 gives for that class: such rays are decided unless they run within
+that distance of the lateral surface.
 """
 
 from __future__ import annotations
@@ -78,13 +81,15 @@ def rho_z(fr, base, x):
     return np.sqrt(u * u + v * v), z
 
 
-def _interval(qu, qv, qz, du, dv, dz, r, h, grow):
+def _interval(qu, qv, qz, du, dv, dz, r, h, grow, grow_r=None):
     """[lo, hi] of admissible t >= 0 for the solid grown by ``grow`` (may be negative).
 
     All arguments broadcastable long-double arrays.  Empty sets come back as hi < lo.
     """
-    shape = np.broadcast(qu, qv, qz, du, dv, dz, r, h, grow).shape
-    rr = np.broadcast_to(np.asarray(r + grow, dtype=LD), shape)
+    if grow_r is None:
+        grow_r = grow
+    shape = np.broadcast(qu, qv, qz, du, dv, dz, r, h, grow, grow_r).shape
+    rr = np.broadcast_to(np.asarray(r + grow_r, dtype=LD), shape)
     zlo = np.broadcast_to(np.asarray(-grow, dtype=LD), shape)
     zhi = np.broadcast_to(np.asarray(h + grow, dtype=LD), shape)
     empty = (rr < 0) | (zhi < zlo)
@@ -127,7 +132,7 @@ def _length(lo, hi, nn):
     return d * nn
 
 
-def path(fr, base, r, h, p, n, k_eps=64.0, grow=None):
+def path(fr, base, r, h, p, n, k_eps=64.0, grow=None, np_tilt=1e-8):
     """Path length of rays {p + t n, t >= 0} through the solid, with its enclosure.
 
     p, n: arrays (..., 3) broadcastable against each other.  Returns dict with
@@ -143,9 +148,15 @@ def path(fr, base, r, h, p, n, k_eps=64.0, grow=None):
     nn = np.sqrt(du * du + dv * dv + dz * dz)
     dist = np.sqrt(qu * qu + qv * qv + qz * qz)
     delta = LD(k_eps * EPS) * (dist + r + h) if grow is None else LD(grow) + 0 * dist
+    # near-parallel class: |n x a^| / |n| <= np_tilt.  The lateral surface is then located
+    # only to sqrt(eps) (|p-b| + r + h) (DESIGN C18: bound of the near-parallel class).
+    with np.errstate(all='ignore'):
+        tilt = np.sqrt(du * du + dv * dv) / nn
+    near_par = tilt <= LD(np_tilt)
+    delta_r = np.where(near_par, LD(np.sqrt(EPS)) * (dist + r + h), delta)
     lo, hi = _interval(qu, qv, qz, du, dv, dz, r, h, LD(0))
-    lo_o, hi_o = _interval(qu, qv, qz, du, dv, dz, r, h, delta)
-    lo_i, hi_i = _interval(qu, qv, qz, du, dv, dz, r, h, -delta)
+    lo_o, hi_o = _interval(qu, qv, qz, du, dv, dz, r, h, delta, delta_r)
+    lo_i, hi_i = _interval(qu, qv, qz, du, dv, dz, r, h, -delta, -delta_r)
     return {
         'L': _length(lo, hi, nn),
         'L_in': _length(lo_i, hi_i, nn),
@@ -153,6 +164,8 @@ def path(fr, base, r, h, p, n, k_eps=64.0, grow=None):
         'delta': np.broadcast_to(delta, np.shape(lo)),
         'lo': lo, 'hi': hi, 'nn': np.broadcast_to(nn, np.shape(lo)),
         'dist': np.broadcast_to(dist, np.shape(lo)),
+        'near_parallel': np.broadcast_to(near_par, np.shape(lo)),
+        'tilt': np.broadcast_to(tilt, np.shape(lo)),
     }
 
 
